@@ -39,6 +39,15 @@ def hostile_scenario(rng):
             acts.append(('exit', rng.choice(['w0', 'l0', 'w1']), rng.choice([0, 1, -9])))
         if rng.random() < 0.2:
             acts.append(('write', 'l0', 'stdout', rng.choice([b'READY\n', b'RESULT 2\nOK', b'RESULT 4\nFAIL', b'REA', b'DY\n'])))
+        if rng.random() < 0.25:
+            # a listener that follows the protocol up to a point: answers (legal boundary cases included) glued to what it
+            # writes next, and -- a third of the time -- exits in the same pass, so that the bytes are read by the
+            # unguarded drain() of finish() instead of the guarded dispatcher loop
+            acts.append(('write', 'l0', 'stdout', rng.choice([b'READY\n', b'READY\n', b'RESULT 0\nREADY\n', b'RESULT 0\n' + rng.choice(HOSTILE),
+                                                             b'RESULT 2\nOKREADY\n', b'RESULT 2\nOK' + rng.choice(HOSTILE), b'RESULT 00\nREADY\n',
+                                                             b'RESULT 1\nxREADY\nRESULT 0\nREADY\n'])))
+            if rng.random() < 0.33:
+                acts.append(('exit', 'l0', rng.choice([0, 1])))
         if rng.random() < 0.15:
             # a large write to a child that does not read its stdin: the pipe fills up
             acts.append(('rpc', 5000 + i, 'supervisor.sendProcessStdin', ('g:w0' if rng.random() < 0.5 else 'g2:w1', 'x' * rng.choice([1000, 70000, 140000]))))
